@@ -28,10 +28,10 @@ LEVEL_TEXT = (
 )
 LEVEL_NOTE = "Trusted: the reference model (frames = values supplied by one block incl. its disposables' yields); single task, no faults."
 ASSUMPTIONS = [
-    "which of several same-type values supplied by ONE block wins is not specified: any of them is accepted",
+    "which of several same-type values supplied by ONE block wins is not specified: any of them is accepted - but the winner must not depend on how long the block's disposables take to enter (metamorphic re-run with three latency patterns)",
     "bare generic G without arguments: default-constructibility is unspecified (either answer accepted)",
 ]
-REQUIRED_CLASSES = ["prepared-scope", "shadowing", "outer-frame-decides", "disposable-state-decides", "default-after-earlier-lookup", "missing-state", "outside-any-scope"]
+REQUIRED_CLASSES = ["same-type-from-several-disposables", "prepared-scope", "shadowing", "outer-frame-decides", "disposable-state-decides", "default-after-earlier-lookup", "missing-state", "outside-any-scope"]
 
 
 def model(prog):
@@ -81,6 +81,40 @@ def model(prog):
 
     walk(prog["body"], (), [], 0)
     return expect
+
+
+def _disp_types(d):
+    y = d.get("yields")
+    ys = [] if y is None else ([y] if isinstance(y, dict) else y)
+    return {sv["type"] for sv in ys}
+
+
+def _duplicates_across_disposables(ops) -> bool:
+    for _, op in P.walk_blocks(ops):
+        ds = op.get("disp") or []
+        seen: set = set()
+        for d in ds:
+            t = _disp_types(d)
+            if seen & t:
+                return True
+            seen |= t
+    return False
+
+
+def _with_latencies(case, variant):
+    import copy
+
+    c = copy.deepcopy(case)
+    for _, op in P.walk_blocks(c["body"]):
+        ds = op.get("disp") or []
+        for j, d in enumerate(ds):
+            if variant == "instant":
+                d["enter"] = {"b": "ok"}
+            elif variant == "earlier-slower":
+                d["enter"] = {"b": "suspend_ok", "t": 0.25 * (len(ds) - j)}
+            else:
+                d["enter"] = {"b": "suspend_ok", "t": 0.25 * (j + 1)}
+    return c
 
 
 def run_case(case) -> Outcome:
@@ -139,6 +173,20 @@ def run_case(case) -> Outcome:
             seen_types.add(name)
     if any(e["ev"] == "prepared" for e in run.log):
         classes.add("prepared-scope")
+    # which of several same-type values of ONE block wins is not specified - but it has to be a function of the program,
+    # not of how long each disposable takes to enter: re-run with other enter latencies and compare the winners
+    if not out.violations and _duplicates_across_disposables(case["body"]):
+        classes.add("same-type-from-several-disposables")
+        winners = []
+        for variant in ("instant", "earlier-slower", "later-slower"):
+            run_v, res_v = P.execute(_with_latencies(case, variant))
+            if res_v["outcome"] != "return":
+                out.violate("run", f"C01.run/program-did-not-finish/{res_v['outcome']}", f"latency variant {variant}: {res_v['exc']!r}")
+                break
+            winners.append({tuple(e["path"]): [tuple(r[1]) if r[0] == "val" else r[0] for _, _, r in e["lookups"]] for e in run_v.log if e["ev"] == "probe"})
+        if len(winners) == 3 and not (winners[0] == winners[1] == winners[2]):
+            diff = [(p_, winners[0][p_], winners[1].get(p_), winners[2].get(p_)) for p_ in winners[0] if not (winners[0][p_] == winners[1].get(p_) == winners[2].get(p_))]
+            out.violate("innermost", "C01.innermost/winner-depends-on-enter-completion-order", f"(probe, instant, earlier-slower, later-slower): {diff[:3]}")
     out.classes = sorted(classes)
     out.nontrivial = bool(classes & {"shadowing", "outer-frame-decides", "disposable-state-decides", "default-after-earlier-lookup"})
     return out
